@@ -122,6 +122,50 @@ def run(ctx):
                     if xr and all(P.is_call(r, 'Weak::strong_count', 'Arc::strong_count') for r, _ in xr) and yr and all(r[0] == 'param' and P.fpath(p)[-1:] == (lim_field,) for r, p in yr):
                         ok = True
         R.ob('C13.admit', ('admission', 'shed only at the limit'), ok, 'a channel is refused only under strong_count(entry) >= channels_per_key', [adm.loc(s)])
+    # every tracker handed out is either the key's existing one (upgrade of the entry) or a fresh one whose downgrade is stored in the key's entry on
+    # every path before it is returned — a fresh tracker the table does not know makes the key look unused to the next arrival
+    def recorded(g, bb):
+        me = ('call', g.id, bb)
+        stores = []
+        for b2, t2 in g.calls():
+            if callee_is(t2, 'Arc::downgrade'):
+                ar = P.root(P.operand(g, t2['args'][0], at=b2), inline=False, stop_tags=('box',))
+                if not (ar and all(P.unbound(x) == me for x, _ in ar)):
+                    continue
+                dg = ('call', g.id, b2)
+                for b3, t3 in g.calls():
+                    if callee_is(t3, 'hash_map::VacantEntry::insert', 'hash_map::OccupiedEntry::insert', 'HashMap::insert', 'hash_map::Entry::or_insert', 'hash_map::VacantEntry::insert_entry'):
+                        if any(P.unbound(x) == dg for a in t3['args'][1:] for x, _ in P.root(P.operand(g, a, at=b3))):
+                            stores.append(b3)
+                for i_, j_, s_ in g.stmts():
+                    if any(e[0] == 'd' or e == 'deref' or (isinstance(e, list) and e and e[0] == 'deref') for e in s_['pl']['p']) and s_['rv']['k'] == 'use':
+                        if any(P.unbound(x) == dg for x, _ in P.root(P.operand(g, s_['rv']['op'], at=i_))):
+                            base = P.root(P.local(g, s_['pl']['l'], at=i_))
+                            if base and all(P.is_call(x, 'hash_map::OccupiedEntry::get_mut', 'hash_map::OccupiedEntry::into_mut', 'HashMap::get_mut', 'hash_map::Entry::or_insert', 'HashMap::entry')
+                                            for x, _ in base):
+                                stores.append(i_)
+        return bool(stores) and cfg.all_paths_pass(g, bb, cfg.exits(g), set(stores))
+
+    for i, j, s in adm.aggregates('std::result::Result', 'Ok'):
+        alts = P.root(P._field(('agg', adm.id, i, j), 0, 0), inline=False, stop_tags=('box',))
+        ok = bool(alts)
+        det = []
+        for r, p_ in alts:
+            ru = P.unbound(r)
+            if P.is_call(r, 'Weak::upgrade'):
+                ar = P.root(P.args_of(r)[0])
+                if not (ar and all(P.unbound(z) == eterm for z, _ in ar)):
+                    ok = False
+                    det.append('upgrade of something other than the key\'s entry')
+                continue
+            if ru[0] == 'call' and recorded(F.fns[ru[1]], ru[2]):
+                continue
+            ok = False
+            det.append('fresh tracker from %s is not stored in the entry on every path' % P.describe(r))
+        arm = 'fresh key' if guarded_by_variant(F, P, adm, i, epred, ['Vacant']) else ('existing key' if guarded_by_variant(F, P, adm, i, epred, ['Occupied']) else 'unguarded')
+        R.ob('C13.admit', ('admission', 'tracker handed out is the one the table knows', arm), ok,
+             'the tracker given to an admitted channel is the upgrade of the key\'s entry, or a fresh tracker whose downgrade is stored in that entry before it is returned', [adm.loc(s)], '; '.join(det))
+
     # the map stores the downgrade of the tracker it hands out
     for bb, t in adm.calls():
         if callee_is(t, 'hash_map::VacantEntry::insert'):
